@@ -382,6 +382,13 @@ def run_function(f, args: dict, funcs=None, env=None, final_env=None, methods=No
                 continue
             if isinstance(st, ast.Pass):
                 continue
+            if isinstance(st, ast.Delete) and all(isinstance(t, ast.Subscript) for t in st.targets):
+                for t in st.targets:
+                    base = ev(t.value, env, funcs, methods)
+                    if not isinstance(base, (dict, list)):
+                        raise NotFinite("del on an unmodelled object")
+                    del base[ev(t.slice, env, funcs, methods)]
+                continue
             if isinstance(st, ast.Return):
                 raise _Ret(ev(st.value, env, funcs, methods) if st.value is not None else None)
             if isinstance(st, ast.Assign):
